@@ -40,6 +40,17 @@ Definition fail (m : message) : message :=
         (put_u16be (m_id m) ++ put_u16be (servfail_flags m) ++ put_u16be (m_qn m)
          ++ [x00; x00; x00; x00; x00; x00] ++ m_qs m).
 
+(* DnsResolver.resolve(request) (mitmproxy/addons/dns_resolver.py): the reply is built FROM THE
+   REQUEST by DNSMessage.succeed (rcode 0, recursion_available set, the answer records) or
+   DNSMessage.fail (rcode, no records); id, op_code, recursion_desired and the questions are those
+   of the request.  rc / n / an: response code, number of answer records, their packed bytes. *)
+Definition resolved_flags (m : message) (rc : N) : N :=
+  (32768 + m_op m * 2048 + (if m_rd m then 256 else 0) + (if (rc =? 0)%N then 128 else 0) + rc)%N.
+Definition resolved (m : message) (rc n : N) (an : bytes) : message :=
+  mkMsg (m_id m) false (m_op m) (m_rd m) (m_qn m) (m_qs m)
+        (put_u16be (m_id m) ++ put_u16be (resolved_flags m rc) ++ put_u16be (m_qn m)
+         ++ put_u16be n ++ [x00; x00; x00; x00] ++ m_qs m ++ an).
+
 (* pack_message *)
 Definition pack_message (m : message) (tcp : bool) : bytes :=
   if tcp then put_u16be (N.of_nat (length (m_packed m))) ++ m_packed m else m_packed m.
@@ -50,7 +61,8 @@ Record flow := mkFlow {
   f_ord : nat; f_req : option message; f_resp : option message; f_err : bool; f_live : bool }.
 
 (* what an addon does to the flow while a hook is pending *)
-Inductive act := ANone | ASetResp (m : message) | AClearResp | ASetErr.
+(* AResolve: the DnsResolver addon answers the flow's own request *)
+Inductive act := ANone | ASetResp (m : message) | AClearResp | ASetErr | AResolve (rc n : N) (an : bytes).
 
 Definition apply_act (a : act) (f : flow) : flow :=
   match a with
@@ -58,6 +70,11 @@ Definition apply_act (a : act) (f : flow) : flow :=
   | ASetResp m => mkFlow (f_ord f) (f_req f) (Some m) (f_err f) (f_live f)
   | AClearResp => mkFlow (f_ord f) (f_req f) None (f_err f) (f_live f)
   | ASetErr => mkFlow (f_ord f) (f_req f) (f_resp f) true (f_live f)
+  | AResolve rc n an =>
+      match f_req f with
+      | Some q => mkFlow (f_ord f) (f_req f) (Some (resolved q rc n an)) (f_err f) (f_live f)
+      | None => f
+      end
   end.
 
 Inductive hookk := HReq | HResp | HErr.
@@ -295,5 +312,32 @@ Fixpoint run (c : cfg) (s : st) (es : list event) : st * list out :=
       let (s2, o2) := run c s1 r in
       (s2, o1 ++ o2)
   end.
+
+(* several client connections, one layer each (regular dns mode); an event is tagged with the
+   connection it belongs to, and so is every command *)
+Fixpoint set_nth {A} (i : nat) (x : A) (l : list A) : list A :=
+  match l, i with
+  | [], _ => []
+  | _ :: r, O => x :: r
+  | y :: r, S k => y :: set_nth k x r
+  end.
+
+Fixpoint sys_run (c : cfg) (ss : list st) (es : list (nat * event)) : list st * list (nat * out) :=
+  match es with
+  | [] => (ss, [])
+  | (i, e) :: r =>
+      match nth_error ss i with
+      | None => sys_run c ss r
+      | Some s =>
+          let (s1, o1) := step c s e in
+          let (ss2, o2) := sys_run c (set_nth i s1 ss) r in
+          (ss2, map (fun o => (i, o)) o1 ++ o2)
+      end
+  end.
+
+Definition proj_events (i : nat) (es : list (nat * event)) : list event :=
+  map snd (filter (fun p => Nat.eqb (fst p) i) es).
+Definition proj_outs (i : nat) (os : list (nat * out)) : list out :=
+  map snd (filter (fun p => Nat.eqb (fst p) i) os).
 
 End Unpack.
